@@ -5,6 +5,7 @@ package main
 import (
 	"fmt"
 	"go/token"
+	"hash/fnv"
 	"go/types"
 	"strings"
 
@@ -240,24 +241,32 @@ func (ft *FuncTr) checkImmutableStore(addr ssa.Value) {
 	}
 }
 
-func (ft *FuncTr) typeTag(t types.Type) int {
-	key := "tag:" + types.TypeString(t, nil)
-	if n, ok := ft.names[key]; ok {
-		return n
-	}
-	n := 1000 + len(ft.names)
-	ft.names[key] = n
-	return n
+func (ft *FuncTr) typeTag(t types.Type) int { return typeTagOf(t) }
+
+// typeTagOf: a deterministic tag per dynamic type (hash of the type string)
+func typeTagOf(t types.Type) int {
+	hsh := fnv.New32a()
+	hsh.Write([]byte(types.TypeString(t, nil)))
+	return 1000 + int(hsh.Sum32()%1000000)
 }
 
-func (ft *FuncTr) box(v *Term) *Term {
+func (ft *FuncTr) box(v *Term) *Term { return ft.h.box(v) }
+
+func (h *HeapCtx) box(v *Term) *Term {
 	bn := "box_" + v.Sort.Mangle()
 	un := "unbox_" + v.Sort.Mangle()
-	ft.d.Fun(bn, []*Sort{v.Sort}, SInt)
-	ft.d.Fun(un, []*Sort{SInt}, v.Sort)
+	h.d.Fun(bn, []*Sort{v.Sort}, SInt)
+	h.d.Fun(un, []*Sort{SInt}, v.Sort)
 	b := mk(SInt, bn, v)
-	ft.assumeRaw(Eq(mk(v.Sort, un, b), v))
+	if h.emit != nil {
+		h.emit(Eq(mk(v.Sort, un, b), v))
+	}
 	return b
+}
+
+// toIface boxes a value of static type ty into an interface value
+func (h *HeapCtx) toIface(v *Term, ty types.Type) *Term {
+	return mk(SIfc, "MkI", IntLit(int64(typeTagOf(ty))), h.box(v))
 }
 
 func (ft *FuncTr) unop(st *State, at *Term, x *ssa.UnOp) error {
